@@ -806,4 +806,62 @@ theorem rintLinspace_blockSeq (H T : Nat) (hT : 1 ≤ T) : BlockSeq (rintLinspac
     apply div_le_div_of_nonneg_right _ (by positivity)
     exact_mod_cast Nat.mul_le_mul_right H (Nat.le_of_lt hij)
 
+/-! ### cells of the concatenation -/
+
+theorem lastB_map_add (s n : Nat) (h' : List Nat) : lastB (s + n) (h'.map (· + n)) = lastB s h' + n := by
+  induction h' generalizing s with
+  | nil => rfl
+  | cons x r ih => simp only [List.map_cons, lastB_cons]; exact ih x
+
+/-- the cells and values of the concatenation, in cell order -/
+theorem concat_cells {α} (a1 a2 : List α) :
+    (pyRange 0 a1.length).map (fun (i : Nat) => (i, a1[((i : Int) + 0).toNat]?)) ++
+      (pyRange a1.length (a1.length + a2.length)).map
+        (fun (i : Nat) => (i, a2[((i : Int) + -(a1.length : Int)).toNat]?)) =
+    (List.range (a1.length + a2.length)).map (fun i => (i, (a1 ++ a2)[i]?)) := by
+  have hr : List.range (a1.length + a2.length) =
+      pyRange 0 a1.length ++ pyRange a1.length (a1.length + a2.length) := by
+    rw [← pyRange_split 0 a1.length (a1.length + a2.length) (by omega) (by omega)]
+    simp [pyRange, List.range_eq_range']
+  rw [hr, List.map_append]
+  congr 1
+  · apply List.map_congr_left
+    intro i hi
+    have := pyRange_mem hi
+    rw [List.getElem?_append_left this.2]
+    simp
+  · apply List.map_congr_left
+    intro i hi
+    have := pyRange_mem hi
+    rw [List.getElem?_append_right this.1]
+    congr 2
+    omega
+
+theorem result_of_cells {α} (a1 a2 : List α) (ws : List (Nat × α))
+    (h : optW ws = (List.range (a1.length + a2.length)).map (fun i => (i, (a1 ++ a2)[i]?))) :
+    ws.map (·.1) = List.range (a1.length + a2.length) ∧
+    (FC.fresh (a1.length + a2.length) ws).result a1 a2 = (a1 ++ a2).map some := by
+  constructor
+  · have : (optW ws).map (·.1) = ws.map (·.1) := by simp [optW]
+    rw [← this, h, List.map_map]
+    simp [Function.comp_def]
+  · show applyWrites (List.replicate (a1.length + a2.length) none) (optW ws) = _
+    rw [h, applyWrites_range _ _ _ (by simp), ← List.length_append, range_getElem?_eq_map_some]
+
+/-! ### the rows visited by the threads -/
+
+/-- the rows visited by the threads of a pass, thread 0 first: `range(b_0, b_1) ++ range(b_1, b_2) ++ …` -/
+def blockRows : Nat → List Nat → List Nat
+  | _, [] => []
+  | s, hi :: r => pyRange s hi ++ blockRows hi r
+
+theorem blockRows_eq (s : Nat) (b' : List Nat) (hp : (s :: b').Pairwise (· ≤ ·)) :
+    blockRows s b' = pyRange s (lastB s b') := by
+  induction b' generalizing s with
+  | nil => simp [blockRows, lastB_nil, pyRange_self]
+  | cons hi r ih =>
+    have hp' : (hi :: r).Pairwise (· ≤ ·) := (List.pairwise_cons.mp hp).2
+    have hshi : s ≤ hi := List.rel_of_pairwise_cons hp (by simp)
+    rw [blockRows, ih hi hp', lastB_cons, ← pyRange_split s hi _ hshi (le_lastB hi r hp')]
+
 end AbacusVerif.TwoPass
